@@ -65,6 +65,8 @@ class Prop:
 
 def run_mc(prop, tier):
     out = []
+    if os.environ.get("VERIF_SKIP_MC") and os.environ.get("VERIF_NO_EVIDENCE"):
+        return out        # development aid (mutation analysis): conformance only, writes no evidence
     for job in prop.mc(tier):
         if job.get("tier") == "thorough" and tier != "thorough":
             continue
